@@ -1,14 +1,19 @@
 /-
 C20 — JSON output is well-formed and agrees with the text output.
 
-Partial by nature (see C18).  The document is proved to have the documented structure for
-any number of arguments — head, one object per argument in order, a comma after every object
-but the last, the closing brackets once, at the end — and every object is proved to be the
-rendering of the same date the text mode reports.  That decimal numbers printed with `{}`
-and the fixed punctuation form valid JSON tokens is not proved in Lean (no JSON grammar is
-formalised); the correspondence check parses every sampled document with a JSON parser.
+Partial by nature (see C18: lexopt, the process and stdout are modelled).  Within the model:
+
+* `json_valid` / `main_json_valid`: for every command line and any number of arguments the
+  text written with -J **is a JSON document** in the sense of RFC 8259 (Spec/Json.lean: a
+  sub-grammar of the RFC's — integers, strings without escapes, `true`/`false`, arrays,
+  objects, whitespace) and **denotes** the value `docVal`: an object with the member
+  `calendar` (type, and the reformation day exactly for a reforming calendar) and the member
+  `dates`, an array with one object per argument, in argument order, holding the day number,
+  year, month, day, day of year, both display strings and — exactly for reforming calendars —
+  `old_style`, of the date that argument denotes (`date_value`, `calendar_value`);
+* the older structural theorems (`jsonPatch_pieces`, `json_document`, …) remain.
 -/
-import JulianVerif.Lemmas.CliSpec
+import JulianVerif.Lemmas.JsonValid
 set_option linter.unusedSimpArgs false
 namespace JV.C20
 open JV Cli
@@ -150,5 +155,71 @@ theorem display_strings_plain (d : Date) :
     · exact hy c hc
     · exact Or.inr rfl
     · exact Or.inl ((padNat_spec 3 _).2.1 c hc)
+
+/-- **the output is a valid JSON document and denotes the reported dates**: for every
+successful run with -J there are dates `ds` — the clock's date when there are no arguments,
+otherwise one per argument, in order, each the date that argument denotes — such that the
+text written (every piece followed by a newline) is a JSON document whose value is
+`docVal calendar ds` -/
+theorem json_valid (o : Options) (hj : o.json = true) (today : Int) (args out : List String)
+    (h : o.run today args = .ok out) :
+    ∃ ds : List Date,
+      (args = [] → ∃ d, o.calendar.atJdn? today = some d ∧ ds = [d])
+      ∧ (args ≠ [] → ds.length = args.length
+          ∧ ∀ i (h1 : i < args.length) (h2 : i < ds.length), argDate o args[i] = some ds[i])
+      ∧ Json.Doc (Json.docVal o.calendar ds) (String.join (out.map (· ++ "\n"))).toList :=
+  Json.run_json_doc o hj today args out h
+
+/-- the same for the process as a whole: whatever the argument vector, if it selects -J and
+the command succeeds, standard output is one JSON document -/
+theorem main_json_valid (today : Int) (argv : List Bytes) (o : Options) (args : List String)
+    (hc : parseCommand argv = .run o args) (hj : o.json = true) (stdout : String)
+    (h : Cli.main today argv = .out stdout) :
+    ∃ ds : List Date, Json.Doc (Json.docVal o.calendar ds) stdout.toList := by
+  simp only [Cli.main, hc] at h
+  cases hr : o.run today args with
+  | panic => rw [hr] at h; cases h
+  | error => rw [hr] at h; cases h
+  | ok ls =>
+    rw [hr] at h
+    simp only [Outcome.out.injEq] at h
+    obtain ⟨ds, _, _, hd⟩ := json_valid o hj today args ls hr
+    exact ⟨ds, by rw [← h]; exact hd⟩
+
+/-- **the value of a date object**: the numeric members, the two display strings, and
+`old_style` exactly for a reforming calendar, true exactly before the reformation -/
+theorem date_value (d : Date) :
+    Json.dateVal d = .obj (
+      [ ("julian_day_number".toList, .int d.jdn), ("year".toList, .int d.year),
+        ("month".toList, .int d.month.number), ("day".toList, .int d.day),
+        ("ordinal".toList, .int d.ordinal),
+        ("display".toList, .str (JV.fmtDate d)), ("ordinal_display".toList, .str (fmtDateAlt d)) ]
+      ++ (match d.calendar with
+          | .reforming r _ => [("old_style".toList, .bool (decide (d.jdn < r)))]
+          | _ => [])) := by
+  cases hc : d.calendar <;>
+    simp [Json.dateVal, Json.dateMembers, Json.intM, Json.strM, Json.boolM,
+      Calendar.isReforming, Date.isJulian, hc]
+
+/-- **the value of the calendar object** -/
+theorem calendar_value (c : Calendar) :
+    Json.calVal c = .obj (
+      ("type".toList, .str (match c with
+                            | .julian => "julian".toList
+                            | .gregorian => "gregorian".toList
+                            | .reforming _ _ => "reforming".toList)) ::
+      (match c with
+       | .reforming r _ => [("reformation".toList, .int r)]
+       | _ => [])) := by
+  cases c <;> rfl
+
+/-- `{}` of any integer is a JSON number denoting that integer -/
+theorem integers_are_json_numbers (i : Int) : Json.IntTok i (toString i).toList :=
+  Json.intTok_toString i
+
+/-- non-vacuity: `julian -J 2299161` (bytes `-J`, `2299161`) succeeds in the model with a
+document on standard output, so `main_json_valid` speaks about a real run -/
+example : (match Cli.main 0 [[45, 74], [50, 50, 57, 57, 49, 54, 49]] with
+           | .out _ => true | _ => false) = true := by decide
 
 end JV.C20
